@@ -17,6 +17,7 @@ import (
 
 	"github.com/cosmos/cosmos-sdk/codec"
 	sdk "github.com/cosmos/cosmos-sdk/types"
+	paramtypes "github.com/cosmos/cosmos-sdk/x/params/types"
 )
 
 // ---- replay state (native only) ----
@@ -311,6 +312,9 @@ func Ctx() sdk.Context      { panic("rt.Ctx: native contexts are provided by rtn
 func EmptyCtx() sdk.Context { panic("rt.EmptyCtx: native contexts are provided by rtnative") }
 
 func Codec() codec.BinaryCodec { panic("rt.Codec: native codec is provided by rtnative") }
+
+// Subspace returns a parameter subspace whose stored parameters are arbitrary values of their types.
+func Subspace() paramtypes.Subspace { panic("rt.Subspace: native subspaces are provided by rtnative") }
 
 func StoreKey(name string) sdk.StoreKey { return sdk.NewKVStoreKey(name) }
 
